@@ -342,6 +342,16 @@ def run_case(case, ctx):
     _try(lambda: fm.cumsum(x))
     _try(lambda: np.sort(x))
     _try(lambda: np.sort(x, axis=0))
+    _try(lambda: np.sort(x, axis=None))            # (the flattened array, sorted)
+    _try(lambda: np.sort(x, axis=-1))
+    for nax in ([-1] if len(shape) == 1 else [-1, -2]):
+        if w * (size if False else shape[nax]) <= 53:
+            _try(lambda: np.cumprod(x, axis=nax))
+            _try(lambda: x.cumprod(axis=nax))
+            _try(lambda: np.prod(x, axis=nax))
+        _try(lambda: np.cumsum(x, axis=nax))
+        _try(lambda: x.sum(axis=nax))
+        _try(lambda: np.max(x, axis=nax))
     y = mk()
     _try(lambda: y.sort())
     a, b = sorted([rng.randint(lo, hi), rng.randint(lo, hi)])
